@@ -547,7 +547,39 @@ INPLACE = {
 INPLACE_EXACT = {"phi", "phiL.list", "phiL.vector", "order", "lambda", "lambda_inv", "lambda_primpow", "lambda_inv_primpow", "lowest_prim_root",
                  "prim_root_of_prime", "prim_root_of_prime.L", "sqrootmodpoweroftwo", "brillhart", "sqrt.ra", "sqrtrem.rar", "sqrtrem.ar", "root",
                  "gcd", "powmod", "inv", "invin", "mod"}
+# In-place forms the tree the model was written after (ebaca73 .. 7a77cad) does NOT support: the body reads the input again after
+# it has written the output (wrong value, SIGFPE or an endless loop).  Recorded as findings (frag/C13.findings.json, fix-7); a form
+# is driven with a verdict as soon as known_findings.json lists its (site, klass): status known -> KNOWN-FINDING, fixed -> VIOLATION
+# on any failure.  Until it is listed the form is run on a sample with a short stall limit and only REPORTED in the evidence.
+# Every other form of INPLACE is supported by the unchanged tree: any failure there is a VIOLATION.
+BASELINE_UNSAFE = {
+    "order@1", "lowest_prim_root@0", "prim_root@0", "prim_root.runs@0", "prim_root_of_prime@0", "prim_root_of_prime.L@0",
+    "probable_prim_root.L@0", "probable_prim_root.default@0", "probable_prim_root.eps@0",
+    "sqrootmodprime@1", "sqrootmodprimepower@0", "sqrootmodprimepower@1", "sqrootmodprimepower@9", "sqrootmodpoweroftwo@9",
+    "sumofsquares@1", "sumofsquares@@1", "sumofsquares.det@1", "sumofsquares.det@@1", "sumofsquares.mc@1", "sumofsquares.mc@@1",
+    "sumofsquares.noerh@1", "sumofsquares.noerh@@1", "sumofsquares.nonres@2", "sumofsquares.nonres@@0", "sumofsquares.nonres@@1", "sumofsquares.nonres@@2",
+}
 IP = {"counts": {}}
+
+
+def inplace_site(c):
+    """(site, klass) an in-place case is reported under"""
+    k = c["kind"]; b = bop(c)
+    site = {"sqrtn": S_SQ + "sqrootmod", "sqrtp": S_SQ + "sqrootmodprime", "sqrtpk": S_SQ + "sqrootmodprimepower", "sqrt2k": S_SQ + "sqrootmodpoweroftwo",
+            "brillhart": S_SQ + "Brillhart", "sos": S_SQ + b.replace("sumofsquares", "sumofsquaresmodprime")}.get(k)
+    if site is None:
+        site = (S_NT + b.split(".")[0]) if k not in NO_MODEL else b.split(".")[0]
+    return site, "inplace:out=in" + c["inplace"]
+
+
+def listed_findings():
+    """{(site, klass): status} of this property in known_findings.json (read-only)"""
+    try:
+        kf = json.load(open(os.path.join(vf.ROOT, "known_findings.json")))
+        kf = kf if isinstance(kf, list) else kf.get("findings", [])
+        return {(f.get("site"), f.get("klass")): f.get("status") for f in kf if f.get("property") == "C13"}
+    except (OSError, ValueError):
+        return {}
 
 
 def gen_inplace(C, rng, th):
@@ -1261,6 +1293,10 @@ TIE = [
      r"Rep prime\((\d+)\), Aorder=this->one;[\s\S]*?(ppin)\(g, \*f\);\s*(ppin)\(Aorder, \*f\);\s*\}\s*this->powmod\(tmp, prime, g, n\);[\s\S]*?this->mulin\(Aorder, this->div\(tmp, (phin), (g)\)\);",
      r"let g := fold_left \(fun g f => (ppin) \(log2_fuel g\) g f\) oldLf phin in\s+let Ao := fold_left \(fun g f => (ppin) \(log2_fuel g\) g f\) oldLf Aorder in[\s\S]*?\(Ao \* \((phin) / (g)\)\)[\s\S]*?prp_first 200 (\d+) n phin Lf",
      lambda g: (g[1], g[2], g[3], g[4], g[0])),
+    ("sqrootmod: the per-prime-power roots go to a local, x is written once at the end (in-place call = three-address call)", SQ_INL,
+     r"std::vector < Rep > roots;\s*Rep (tmp);[\s\S]*?this->sqrootmodpoweroftwo \((\w+), a, \*Le_iter, \*Pe_iter\)\);[\s\S]*?this->sqrootmodprimepower \((\w+), a, \*Lf_iter, \*Le_iter, \*Pe_iter\)\);\s*\}\s*if \((\w+) == -1\) return x = -1;[\s\S]*?RNs\.RnsToRing \((x), roots\);",
+     r"match r, roots_of (a) tl draws with",
+     lambda g: ("a",) if g[:4] == ("tmp", "tmp", "tmp", "tmp") and g[4] == "x" else ("the output is used as scratch",) + g),
     ("Brillhart: fold x into [0, p/2], loop bound", SQ_INL, r"b=x>\(p>>(\d+)\)\?p-x:x;[\s\S]*?if \(! this->isOne\(a\)\) \{\s*while\(a>s\)", r"let b := if p / (\d+) <\? x then p - x else x in\s+let a := p mod b in\s+if a =\? 1 then Some \(a, b\) else", lambda g: (2 ** g[0],)),
 ]
 
@@ -1406,6 +1442,41 @@ def run_parallel(binary, lines, nproc=6, timeout=300, restarts=12, stall=None, m
     return ok, out, err
 
 
+def report_unsupported_inplace(chk, himpl, unsafe, listed):
+    """the in-place forms the baseline tree does not support and known_findings.json does not list as fixed: a sample per form,
+    short stall limit.  Not listed: NO verdict, the outcome is recorded in the evidence (and in frag/C13.findings.json for the
+    coordinator).  Listed as known: the failures are reported through fail_input (KNOWN-FINDING)."""
+    import threading
+    byform = {}
+    for c in unsafe:
+        byform.setdefault(c["iop"], []).append(c)
+    out = {}
+
+    def one(form, cs):
+        cs = [cs[(j * 7919) % len(cs)] for j in range(min(12, len(cs)))]
+        lines = ["%s %s" % (c["iop"], " ".join(str(x) for x in c["iargs"])) for c in cs]
+        ok, o, err = run_parallel(himpl, lines, nproc=1, timeout=40, stall=4, restarts=3, max_stalls=2)
+        cache = {}; bad = 0; first = None
+        for c, l in zip(cs, o):
+            good = l is not None and not l.startswith("CRASH") and spec(c, l, cache)[0] is True
+            if not good:
+                bad += 1
+                first = first or {"call": "%s %s" % (c["iop"], " ".join(str(x) for x in c["iargs"]))[:120], "observed": str(l)[:80]}
+                if listed.get(inplace_site(c)) == "known" and bad <= 2:
+                    st, kl = inplace_site(c)
+                    fails.append((st, kl, dict(c), str(l)[:120]))
+        out[form] = {"site_klass": list(inplace_site(cs[0])), "sample": len(cs), "not_as_with_distinct_objects": bad, "first": first}
+    fails = []
+    ths = [threading.Thread(target=one, args=(f, cs)) for f, cs in byform.items()]
+    [t.start() for t in ths]; [t.join() for t in ths]
+    for st, kl, cc, obs in fails:
+        chk.fail_input(st, kl, {kk: (str(v) if isinstance(v, int) and abs(v) > 2 ** 62 else v) for kk, v in cc.items()},
+                       "the result of the call with distinct objects", obs, "the body reads an input after it has written the output")
+    chk.cov["in_place_forms_not_supported_by_the_baseline_tree"] = {
+        "note": "no verdict: the bodies read an input after writing the output (frag/C13.findings.json, frag/C13.fix-7.diff); "
+                "a form gets a verdict as soon as known_findings.json lists its (site, klass)", "forms": dict(sorted(out.items()))}
+
+
 def main(tier, replay=None):
     chk = vf.Check("C13", tier, "proof")
     rng = vf.Rng(chk.seed)
@@ -1460,6 +1531,12 @@ def main(tier, replay=None):
                 cases.append(pc)
             else:
                 chk.fail_input(S_NT + "prim_root_of_prime", "n=%d" % pc["n"], dict(pc), "a primitive root of the prime n", "no result within 4 s", "the call does not terminate")
+    listed = listed_findings()
+    is_unsafe = lambda c: bool(c.get("inplace")) and c["iop"] in BASELINE_UNSAFE and listed.get(inplace_site(c)) != "fixed"
+    unsafe = [c for c in cases if is_unsafe(c)]
+    if unsafe:
+        cases = [c for c in cases if not is_unsafe(c)]
+        report_unsupported_inplace(chk, himpl, unsafe, listed)
     ilines = ["%s %s" % (c["iop"], " ".join(str(x) for x in c["iargs"])) for c in cases]
     tmo = 1500 if tier == "thorough" else 280
     okr, iout, ierr = run_parallel(himpl, ilines, nproc=8, timeout=tmo, stall=240 if tier == "thorough" else 90)
@@ -1498,7 +1575,7 @@ def main(tier, replay=None):
             continue
         ok, exp, site, klass = spec(c, iout[i], cache)
         if c.get("inplace"):
-            klass = "inplace:out=in" + c["inplace"]
+            site, klass = inplace_site(c)
             nip += 1
             ref = distinct_out.get((bop(c), tuple(c["iargs"])))
             if ok and bop(c) in INPLACE_EXACT and ref is not None and ref.split(";")[0].split() != iout[i].split(";")[0].split():
